@@ -542,6 +542,11 @@ def do_extract(u, spec, subs, tline):
                 fn_counts['T4'] = fn_counts.get('T4', 0) + n
                 u.rewrites.append({'fn': ' :: '.join(path), 'file': relpath, 'kind': 'T4', 'what': 'split_or_guard: %d match arm(s) `C(A | B) if G` duplicated per alternative' % n})
                 continue
+            if args[0] == 'self_dot0':
+                text, n = t4mod.self_dot0(text)
+                fn_counts['T4'] = fn_counts.get('T4', 0) + n
+                u.rewrites.append({'fn': ' :: '.join(path), 'file': relpath, 'kind': 'T4', 'what': 'self_dot0: %d occurrence(s) of `self.0` (the str field of the newtype) written as `self.as_str()`' % n})
+                continue
             if args[0] == 'guard_to_if':
                 text, note = t4mod.guard_to_if(text, int(args[1]))
                 fn_counts['T4'] = fn_counts.get('T4', 0) + 1
